@@ -611,15 +611,15 @@ macro_rules! stream_harness {
     };
 }
 
-// @harness name=c01_parse_stream_3 props=C01,C03,C06 tier=quick timeout=900 rmbody=ioerr,nogrow,nomap
+// @harness name=c01_parse_stream_3 props=C01,C03,C06 tier=quick timeout=900 rmbody=ioerr,nogrow,nomap unwindset=NVIter<&mut..u8.>.as.std::iter::Iterator>::try_fold::<:3
 // @bound empty carry-over buffer, record data of exactly 3 symbolic bytes, rec_end symbolic; make_cgivar = E4 model; map insertion = no-op (E4c: names observed, values not); E8
 // @functions ParamsStateInner::parse_stream, NVIter<&mut [u8]>::next
 stream_harness!(c01_parse_stream_3, 3, false);
-// @harness name=c01_parse_stream_5 props=C01,C03,C06 tier=quick timeout=900 rmbody=ioerr,nogrow,nomap
+// @harness name=c01_parse_stream_5 props=C01,C03,C06 tier=quick timeout=900 rmbody=ioerr,nogrow,nomap unwindset=NVIter<&mut..u8.>.as.std::iter::Iterator>::try_fold::<:4
 // @bound empty carry-over buffer, record data of exactly 5 symbolic bytes (<= 2 pairs), rec_end symbolic; make_cgivar = E4 model; map insertion = no-op (E4c); E8
 // @functions ParamsStateInner::parse_stream, NVIter<&mut [u8]>::next
 stream_harness!(c01_parse_stream_5, 5, false);
-// @harness name=c01_parse_stream_7 props=C01,C03,C06 tier=quick timeout=900 rmbody=ioerr,nogrow,nomap
+// @harness name=c01_parse_stream_7 props=C01,C03,C06 tier=quick timeout=900 rmbody=ioerr,nogrow,nomap unwindset=NVIter<&mut..u8.>.as.std::iter::Iterator>::try_fold::<:5
 // @bound empty carry-over buffer, record data of exactly 7 symbolic bytes (<= 3 pairs), rec_end symbolic; make_cgivar = E4 model; map insertion = no-op (E4c); E8
 // @functions ParamsStateInner::parse_stream, NVIter<&mut [u8]>::next
 stream_harness!(c01_parse_stream_7, 7, false);
@@ -627,6 +627,81 @@ stream_harness!(c01_parse_stream_7, 7, false);
 // @bound as c01_parse_stream_3 but with the REAL HashMap (values read back from the environment)
 // @functions ParamsStateInner::parse_stream, NVIter<&mut [u8]>::next, HashMap::extend
 stream_harness!(c01_parse_stream_real_3, 3, true);
+
+// ------------------------------------------------------------------------------------------------ parse_stream with a carried-over (incomplete) pair
+
+fn carry_case<const BL: usize, const DN: usize>(only_incomplete: bool) {
+    let pre: [u8; BL] = kani::any();
+    let mut data: [u8; DN] = kani::any();
+    let rec_end: bool = kani::any();
+    // invariant of `buffer`: a non-empty, strictly incomplete prefix of a pair
+    kani::assume(ref_next(&pre, 0).is_none());
+    let mut whole = [0u8; 16];
+    let mut i = 0; while i < BL { whole[i] = pre[i]; i += 1; }
+    let mut i = 0; while i < DN { whole[BL + i] = data[i]; i += 1; }
+    let wl = BL + DN;
+    // quick instance: only inputs in which the carried-over pair stays incomplete (bytes may move, nothing is delivered)
+    if only_incomplete { kani::assume(ref_next(&whole[..wl], 0).is_none()); }
+    let mut inner = ParamsStateInner { req: fresh_req(), buffer: Vec::with_capacity(64) };
+    inner.req.params = std::collections::HashMap::with_capacity(40);
+    inner.buffer.extend_from_slice(&pre);
+    let consumed = inner.parse_stream(&mut data[..], rec_end);
+    assert!(consumed <= DN, "more bytes reported consumed than were offered");
+    // reference: whole pairs decoded from carry ++ data
+    let mut o = 0usize;
+    let mut k = 0usize;
+    while let Some((h, nl, vl)) = ref_next(&whole[..wl], o) {
+        assert!(k < g_cnt() && g_name_is(k, &whole[o + h..o + h + nl]), "names must reach make_cgivar in wire order, byte for byte (first one reassembled from the carry-over buffer)");
+        o += h + nl + vl;
+        k += 1;
+    }
+    assert!(g_cnt() == k, "number of pairs delivered differs from the number of complete pairs in carry-over + record data");
+    if k == 0 {
+        // the carried-over pair is still incomplete: bytes may only MOVE from the input to the buffer
+        let bl2 = inner.buffer.len();
+        assert!(bl2 == BL + consumed, "C01: bytes lost or duplicated between the carry-over buffer and the input (a byte moved into the buffer must be reported as consumed)");
+        let j: usize = kani::any();
+        if j < bl2 { assert!(inner.buffer[j] == whole[j], "carry-over buffer is not the prefix of the pair's bytes"); }
+        if rec_end { assert!(consumed == DN, "at the end of a record every byte must be consumed"); }
+        kani::cover!(!rec_end && consumed > 0 && consumed < DN, "length-prefix bytes moved into the carry-over buffer, body still incomplete");
+        kani::cover!(!rec_end && consumed == 0, "nothing can be moved yet");
+    } else if rec_end {
+        assert!(consumed == DN, "at the end of a record every byte must be consumed");
+        assert!(inner.buffer.len() == wl - o, "the incomplete tail must be buffered completely");
+        let j: usize = kani::any();
+        if j < wl - o { assert!(inner.buffer[j] == whole[o + j], "buffered tail differs from the wire bytes"); }
+        kani::cover!(k >= 2, "carried-over pair completed and a second pair parsed from the same record");
+    } else {
+        assert!(BL + consumed == o && inner.buffer.is_empty(), "inside a record exactly the whole pairs are consumed and nothing stays buffered");
+        kani::cover!(o < wl, "incomplete tail left in the input buffer");
+    }
+    std::mem::forget(inner);
+}
+
+macro_rules! carry_harness {
+    ($name:ident, $bl:expr, $dn:expr, $inc:expr) => {
+        #[kani::proof]
+        #[kani::unwind(18)]
+        #[kani::stub(std::hash::RandomState::new, fixed_random_state)]
+        #[kani::stub(ParamsStateInner::make_cgivar, make_cgivar_model)]
+        #[kani::stub(std::collections::HashMap::insert, map_insert_model)]
+        #[kani::stub(smallvec::SmallVec::with_capacity, crate::verif_kani::smallvec_with_capacity_model)]
+        fn $name() { carry_case::<$bl, $dn>($inc); }
+    };
+}
+
+// @harness name=c01_parse_stream_carry_1 props=C01,C06 tier=thorough timeout=3000 rmbody=ioerr,nogrow,nomap mem=20 dead=1 unwindset=NVIter<&mut..u8.>.as.std::iter::Iterator>::try_fold::<:4
+// @bound parse_stream with a carried-over buffer of 1 symbolic byte (incomplete pair prefix) and record data of exactly 5 symbolic bytes, rec_end symbolic: the reassembled pair, the pairs after it, the tail, and the consumed count against a reference decoding of carry ++ data; make_cgivar = E4 model; E4c; E8
+// @functions ParamsStateInner::parse_stream (carry-over branch), ParamsStateInner::parse_buffered, NVIter<&mut [u8]>::next
+carry_harness!(c01_parse_stream_carry_1, 1, 5, false);
+// @harness name=c01_parse_stream_carry_2 props=C01,C06 tier=thorough timeout=3000 rmbody=ioerr,nogrow,nomap mem=20 unwindset=NVIter<&mut..u8.>.as.std::iter::Iterator>::try_fold::<:4
+// @bound as c01_parse_stream_carry_1 with 2 carried-over bytes and 4 bytes of record data
+// @functions ParamsStateInner::parse_stream (carry-over branch), ParamsStateInner::parse_buffered
+carry_harness!(c01_parse_stream_carry_2, 2, 4, false);
+// @harness name=c01_parse_stream_carry_s props=C01,C06 tier=quick timeout=1500 rmbody=ioerr,nogrow,nomap mem=20 dead=1 unwindset=NVIter<&mut..u8.>.as.std::iter::Iterator>::try_fold::<:3
+// @bound as c01_parse_stream_carry_1 with 1 carried-over byte and 2 bytes of record data (quick instance: a length-prefix byte moves into the carry-over buffer while the body is still missing; or the pair completes)
+// @functions ParamsStateInner::parse_stream (carry-over branch), ParamsStateInner::parse_buffered
+carry_harness!(c01_parse_stream_carry_s, 1, 2, false);
 
 // ------------------------------------------------------------------------------------------------ ParamsState::drive framing
 
